@@ -56,8 +56,8 @@ def reference():
 
 
 HIST_CONSTS = {
-    "quick": dict(Inputs="{1, 4, 5}", Levels="Lv", MaxObjs=2, MaxEvents=4, Ctors="CtorsAll"),
-    "thorough": dict(Inputs="{1, 2, 3, 4, 5}", Levels="Lv", MaxObjs=2, MaxEvents=5, Ctors="CtorsAll"),
+    "quick": dict(Inputs="{1, 4, 5}", Levels="Lv", MaxObjs=2, MaxEvents=4, Ctors="CtorsAll", OtherKinds="OthersQ"),
+    "thorough": dict(Inputs="{1, 2, 3, 4, 5}", Levels="Lv", MaxObjs=2, MaxEvents=5, Ctors="CtorsAll", OtherKinds="OthersAll"),
 }
 
 
